@@ -21,6 +21,12 @@ def fam_cid(rng, i):
     RETIRE_CONNECTION_ID frames, long virtual-time holds so that ID lifetimes expire, one-directional blackholes
     around the retirement time"""
     kind = ["rebind", "lifetime", "lifetime", "rebind-lifetime", "plain", "expiry"][i % 6]
+    if i == 5:
+        # directed: the server's ids live 60 s; everything the server sends is lost from 29 s to 64 s, so the client never
+        # sees the NEW_CONNECTION_ID frames that ask it (Retire Prior To) to give up the expiring id
+        return {"seed": rng.randrange(1, 2**40), "bidi": 1, "size": 2000, "chunk": 1000, "delay_ms": 5, "endpoint_drops": 1,
+                "s.cid_lifetime_ms": 60000, "tick_ms": 1000, "c.max_idle_ms": 100000, "s.max_idle_ms": 100000,
+                "bh": "29000:64000:2", "hold_ms": 80000, "deadline_ms": 230000}
     delay = rng.choice([5, 25])
     p = {
         "seed": rng.randrange(1, 2**40), "bidi": 1, "uni": rng.choice([0, 1]), "size": rng.choice([500, 3000, 20000]), "chunk": 1000,
